@@ -26,6 +26,20 @@ class P:
 def f(a: int, b: int) -> int:
     result("f", a)
     return a - b
+
+@guppy
+def swap2(a: int, b: int) -> tuple[int, int]:
+    return b, a + 1
+
+@guppy
+def noret(a: int) -> None:
+    result("n", a)
+
+@guppy
+def early(a: int) -> None:
+    if a > 1:
+        return
+    result("e", a)
 '''
 
 # atoms: (kind, lines).  Variables: x, y (int params), b (bool param).
@@ -61,6 +75,13 @@ ATOMS_MORE = [
     ("or-chain", ["b = x > 1 or y > 1 or x == y"]),
     ("and-chain", ["b = x >= 0 and y > 0 and x != y"]),
     ("mixed-bool-chain", ["b = x > 1 or y > 1 and x == 0 or b"]),
+    ("pass", ["pass"]),
+    ("annassign", ["z: int = x + y", "x = z - 1"]),
+    ("starred-tuple-mid", ["p, *q, r = (y, x, 1, 2)", "x = p * 10 + r"]),
+    ("unpack-range", ["p, q = range(2)", "y = y + p + q * 2"]),
+    ("tuple-returning-call", ["x, y = swap2(x, y)"]),
+    ("void-call", ["noret(x)", "early(y)"]),
+    ("nested-tuple-unpack", ["(p, q), r = (x, y), 3", "x = q * 10 + r", "y = p"]),
     # several same-typed PLACES of one struct / tuple live across a branch or loop, first used in a different
     # order on each path (block rows are sorted by place, so a wrong order swaps equal-typed values silently)
     ("struct-fields-live-across-branch", ["s = P(x, y)", "if b:", "    x = s.b - s.a", "else:", "    x = s.a * 10 + s.b", "y = s.a - y"]),
